@@ -567,6 +567,9 @@ func validateConstExpression(globals []GlobalType, numFuncs uint32, expr *Consta
 		if uint32(len(globals)) <= id {
 			return fmt.Errorf("global index out of range")
 		}
+		if globals[id].Mutable {
+			return fmt.Errorf("constant expression must not reference a mutable global")
+		}
 		actualType = globals[id].ValType
 	case OpcodeRefNull:
 		if len(expr.Data) == 0 {
